@@ -3,7 +3,6 @@
 package verifsim
 
 import (
-	"sort"
 	"bytes"
 	"context"
 	"encoding/base64"
@@ -13,6 +12,7 @@ import (
 	"math"
 	"net/http"
 	"net/http/httptest"
+	"sort"
 	"strings"
 	"testing"
 	"testing/synctest"
@@ -121,7 +121,7 @@ type c10Req struct {
 	Calls  int
 	After  Stored
 	T      time.Time
-	Fault  string // the storage fault that fired while this request was served ("" = none)
+	Fault  string            // the storage fault that fired while this request was served ("" = none)
 	Snap   map[string]string // every configured log's latest checkpoint after the request
 	Logs   []string          // the witness's log list after the request
 }
